@@ -1,5 +1,7 @@
 import LanceModel.C27.CwLemmas
 import LanceModel.C27.OffLemmas
+import LanceModel.C27.TabLemmas
+import LanceModel.C27.StackLemmas
 /-!
 # C27 — repetition / definition levels encode nesting losslessly
 
@@ -28,6 +30,39 @@ def unravel_serialize_full : Prop :=
     (∃ v n, ls.getLast? = some (.validity v n)) →
     ∀ s, serialize [ls] = some s →
       unravelAll [Unr.new s.rep s.dl s.meaning (leafItems ls)] (kindsOf ls) = some (nf ls).reverse
+
+/-! ## Part 1b: the full statement for stacks without lists -/
+
+/-- **`unravel_serialize` for nested structs around a leaf** (any depth, any number of rows, every layer with or
+    without a validity buffer): unravelling the serialised definition levels of a stack of validity layers, innermost
+    layer first, returns the logical normal form.  This is `unravel_serialize_full` restricted to stacks without list
+    layers (`_partial`: the induction over stacks that contain list layers is not assembled; its two induction
+    steps are Part 2). -/
+theorem unravel_serialize_partial (ls : List Layer) (k : Nat) (honly : onlyValidity ls = true)
+    (hal : aligned ls = true) (hrows : 0 < stackRows ls) (hdef : 0 < numDefs ls) (hT : numDefs ls ≤ T)
+    (s : Ser) (hs : serializeLayers ls = some s) :
+    unravelAll [Unr.new s.rep s.dl s.meaning k] (kindsOf ls) = some (nf ls).reverse :=
+  validity_stack_roundtrip ls k honly hal hrows hdef hT s hs
+
+set_option maxRecDepth 100000 in
+/-- struct (null at row 1) > struct (no buffer) > item (null at rows 0 and 3): the hypotheses hold and the normal
+    form reports the item under the null struct as null -/
+example :
+    let ls := [Layer.validity (some [true, false, true, true]) 4, .validity none 4,
+      .validity (some [false, true, true, false]) 4]
+    onlyValidity ls = true ∧ aligned ls = true ∧ 0 < stackRows ls ∧ 0 < numDefs ls ∧ numDefs ls ≤ T ∧
+      (serializeLayers ls).map (fun s => (s.dl, s.meaning)) =
+        some (some [1, 2, 0, 1], [.nullableItem, .allValidItem, .nullableItem]) ∧
+      nf ls = [.v (some [true, false, true, true]), .v none, .v (some [false, false, true, false])] := by decide
+
+/-- zero rows are outside the contract (open finding `zero_rows`): the early return of `build` hands out `def_meaning`
+    un-reversed and no levels, and unravelling panics -/
+theorem unravel_serialize_zero_rows_counterexample :
+    ∃ ls : List Layer, onlyValidity ls = true ∧ aligned ls = true ∧ stackRows ls = 0 ∧
+      ∃ s, serializeLayers ls = some s ∧
+        unravelAll [Unr.new s.rep s.dl s.meaning 0] (kindsOf ls) ≠ some (nf ls).reverse :=
+  ⟨[.validity (some []) 0, .validity none 0], by decide, by decide, by decide,
+    ⟨_, rfl, by decide⟩⟩
 
 /-! ## Part 2: one layer in an arbitrary context (the induction steps of `unravel_serialize_full`)
 
@@ -66,6 +101,32 @@ theorem list_layer_roundtrip (D' R' used K nl el : Nat) (hasNull hasEmpty : Bool
       (offLoop nl el (D' + used + K) (D' + used) S cur).bits = maskOf E ∧
       Rel2 (VP (R' + 1) (D' + used)) E (offLoop nl el (D' + used + K) (D' + used) S cur).kept :=
   offsets_view D' R' used K nl el hasNull hasEmpty hT hnl1 hnl0 hel1 hel0 E lens S cur hinv hal hview
+
+/-- **`def_meaning` / `levels_to_rep`**: in the table `RepDefUnraveler::new` builds from any `def_meaning`, split at any
+    nullable struct / item layer (`a` = the layers below it, `b` = the layers above it): the levels of the layers
+    below, the layer's own level and the levels of the nullable structs directly above it are visible once the
+    `nlM a` lists below have been unravelled, and every level beyond (an outer list's null / empty level or a struct
+    above such a list) only later.  These are exactly the two table hypotheses of `validity_layer_roundtrip`. -/
+theorem def_meaning_table (a b : List Meaning) :
+    (∀ ℓ, ℓ ≤ ndM a + 1 + structLevelsAbove b →
+      ∃ r, (0 :: levelsToRep (a ++ .nullableItem :: b) 0)[ℓ]? = some r ∧ r ≤ nlM a) ∧
+    (∀ ℓ, ndM a + 1 + structLevelsAbove b < ℓ → ℓ ≤ ndM (a ++ .nullableItem :: b) →
+      ∃ r, (0 :: levelsToRep (a ++ .nullableItem :: b) 0)[ℓ]? = some r ∧ nlM a < r) :=
+  validity_table a b
+
+/-- the validity-layer round trip with the real table of any `def_meaning` (no table hypotheses left) -/
+theorem validity_layer_roundtrip_real (a b : List Meaning) (hD : ndM a + 1 ≤ T)
+    (E : List Entry) (v : List Bool) (ds : List Nat)
+    (hinv : ∀ e ∈ E, EInv (ndM a + 1) (nlM a) (structLevelsAbove b) (ndM (a ++ .nullableItem :: b)) e)
+    (hlen : (maskOf E).length = v.length)
+    (hview : Rel2 (VD (ndM a)) (recValidity (ndM a + 1) E v) ds) :
+    ∃ vis, visibleLevels (0 :: levelsToRep (a ++ .nullableItem :: b) 0) (nlM a) ds = some vis ∧
+      vis.map (fun d => decide (d ≤ ndM a)) = maskAnd (maskOf E) v ∧ Rel2 (VD (ndM a + 1)) E ds :=
+  validity_view _ _ _ _ _ hD (validity_table a b).1 (validity_table a b).2 E v ds hinv hlen hview
+
+/-- `[NullableItem, NullableAndEmptyableList, NullableItem]` (item, list, struct): levels 0,1 at rep 0; 2,3 (null / empty
+    list) and 4 (null struct above the list) at rep 1 -/
+example : (0 :: levelsToRep [.nullableItem, .nullableAndEmptyableList, .nullableItem] 0) = [0, 0, 1, 1, 1] := by decide
 
 /-! ## Part 3: control words -/
 
